@@ -121,14 +121,27 @@ def make_cfg(rs, tier):
     cfg["p_mut"] = 0.6
     cfg["oracles"] = ["backend", "result"]
     cfg["depth"] = rs.choice([2, 3])
+    # a share of runs on buffered families executes inside obj.buffered (the shared-memory strategy keeps caller data
+    # alive in the buffer instead of re-reading the file, so aliasing survives there)
+    from ..core import lib
+    cfg["in_ctx"] = lib.load().families[cfg["family"]]["buffered"] and rs.random() < 0.5
+    if cfg["in_ctx"]:
+        cfg["nobj"] = 1
     return cfg
 
 
-setup = _unbuf.setup
+def setup(w, rg):
+    yield from _unbuf.setup(w, rg)
+    if w.cfg.get("in_ctx"):
+        yield {"t": "enter", "ctx": "obj", "oid": 0}
 
 
 def gen_step(w, rg):
     roll = rg.random()
+    if w.cfg.get("in_ctx") and roll > 0.97 and not w.ctx:
+        return {"t": "enter", "ctx": "obj", "oid": 0}
+    if w.cfg.get("in_ctx") and roll > 0.94 and w.ctx:
+        return {"t": "exit"}
     if w.userrefs and roll < 0.25:
         return {"t": "usermut", "ref": rg.randrange(len(w.userrefs))}
     hs = G.attached_handles(w)
@@ -143,10 +156,19 @@ def gen_step(w, rg):
         operand = {"$handle": src.hid}
         if rg.random() < 0.3:
             operand = {"w": operand} if rg.random() < 0.5 else [operand]
+        if rg.random() < 0.3:
+            # tuples (stored as lists) holding mutable containers, also next to a synced operand
+            operand = {"$tuple": [[w.fresh.int()], {"t": w.fresh.int()}, operand if rg.random() < 0.5 else w.fresh.int()]}
+        # (open finding C16-F1) merge paths only get synced operands that belong to another root object
+        safe = [x for x in hs if x.oid != h.oid]
+        bsrc = G.pick(rg, safe) if safe else None
+        bare = {"$handle": bsrc.hid} if bsrc is not None else w.fresh.int()
         if h.kind == "dict":
+            # (open finding C16-F1: wrapped synced operands only through non-merge entry points)
             name, args = G.pick(rg, [("setitem", [G.gen_key(rg, w.fresh, c, 0.3), operand]),
-                                     ("update", [{G.gen_key(rg, w.fresh, c, 0.3): operand}]),
-                                     ("setdefault", [G.gen_key(rg, w.fresh, c, 0.0), operand])])
+                                     ("update", [{G.gen_key(rg, w.fresh, c, 0.3): bare}]),
+                                     ("update_kwargs", [None, {"kw": bare, "kw2": [w.fresh.int(), {"z": w.fresh.int()}]}]),
+                                     ("setdefault", [w.fresh.key(), operand])])
         else:
             name, args = G.pick(rg, [("append", [operand]), ("insert", [rg.randint(0, len(c)), operand]),
                                      ("extend", [[operand]]), ("iadd", [[operand]])])
